@@ -4,11 +4,7 @@ use std::fs::File;
 use std::io::BufRead;
 use std::io::BufReader;
 use std::ops::Add;
-use std::ops::Index;
 use std::path::Path;
-use std::sync::LazyLock;
-use crate::util::error_exit;
-use regex::Captures;
 use regex::Error;
 use regex::Regex;
 
@@ -62,6 +58,10 @@ fn update_hgignore_filters(hgignore_filters: &mut Vec<HgignoreFilter>, path: &Pa
 
 pub fn matches_hgignore_filter(hgignore_filters: &Vec<HgignoreFilter>, file_name: &str) -> bool {
     let mut matched = false;
+
+    // (the patterns are written with forward slashes)
+    let file_name = file_name.replace('\\', "/");
+    let file_name = file_name.as_str();
 
     for hgignore_filter in hgignore_filters {
         let is_match = hgignore_filter.regex.is_match(file_name);
@@ -165,104 +165,70 @@ fn convert_hgignore_pattern(
     }
 }
 
-static HG_CONVERT_REPLACE_REGEX: LazyLock<Regex> = LazyLock::new(|| {
-    Regex::new("(\\*\\*|\\?|\\.|\\*)").unwrap()
-});
+/// Translates a glob of the ignore-file kind into regular-expression text:
+/// `**/` stands for any number of leading directories (including none), `**` for any text,
+/// `*` for any text within one path component, `?` for one character of a component;
+/// every other character stands for itself.
+pub fn convert_path_glob(glob: &str) -> String {
+    let chars: Vec<char> = glob.chars().collect();
+    let mut pattern = String::new();
+    let mut i = 0;
+
+    while i < chars.len() {
+        match chars[i] {
+            '*' if chars.get(i + 1) == Some(&'*') && chars.get(i + 2) == Some(&'/') => {
+                pattern.push_str("(?:.*/)?");
+                i += 3;
+            }
+            '*' if chars.get(i + 1) == Some(&'*') => {
+                pattern.push_str(".*");
+                i += 2;
+            }
+            '*' => {
+                pattern.push_str("[^/]*");
+                i += 1;
+            }
+            '?' => {
+                pattern.push_str("[^/]");
+                i += 1;
+            }
+            c => {
+                pattern.push_str(&regex::escape(&c.to_string()));
+                i += 1;
+            }
+        }
+    }
+
+    pattern
+}
+
+/// The directory that holds the ignore file, as an anchored regular-expression prefix for absolute paths.
+pub fn root_prefix(dir_path: &Path) -> String {
+    let mut root = dir_path.to_string_lossy().to_string().replace("\\", "/");
+    while root.ends_with('/') {
+        root.pop();
+    }
+
+    String::from("^") + &regex::escape(&root) + "/"
+}
 
 fn convert_hgignore_glob(glob: &str, file_path: &Path) -> Result<Regex, Error> {
-    #[cfg(not(windows))]
-    {
-        let mut pattern = HG_CONVERT_REPLACE_REGEX
-            .replace_all(&glob, |c: &Captures| {
-                match c.index(0) {
-                    "**" => ".*",
-                    "." => "\\.",
-                    "*" => "[^/]*",
-                    "?" => "[^/]+",
-                    "[" => "\\[",
-                    "]" => "\\]",
-                    "(" => "\\(",
-                    ")" => "\\)",
-                    "^" => "\\^",
-                    "$" => "\\$",
-                    _ => error_exit(".hgignore", "Error parsing pattern"),
-                }
-                .to_string()
-            })
-            .to_string();
+    // hgignore patterns are not rooted: they match from any path component on,
+    // up to the end of a component (whatever lies below a matched directory is ignored too)
+    let pattern = root_prefix(file_path)
+        .add("(?:.*/)?")
+        .add(&convert_path_glob(glob.trim_end_matches('/')))
+        .add("(?:/|$)");
 
-        pattern = file_path
-            .to_string_lossy()
-            .to_string()
-            .replace("\\", "\\\\")
-            .add("/([^/]+/)*")
-            .add(&pattern);
-
-        Regex::new(&pattern)
-    }
-
-    #[cfg(windows)]
-    {
-        let mut pattern = HG_CONVERT_REPLACE_REGEX
-            .replace_all(&glob, |c: &Captures| {
-                match c.index(0) {
-                    "**" => ".*",
-                    "." => "\\.",
-                    "*" => "[^\\\\]*",
-                    "?" => "[^\\\\]+",
-                    "[" => "\\[",
-                    "]" => "\\]",
-                    "(" => "\\(",
-                    ")" => "\\)",
-                    "^" => "\\^",
-                    "$" => "\\$",
-                    _ => error_exit(".hgignore", "Error parsing pattern"),
-                }
-                .to_string()
-            })
-            .to_string();
-
-        pattern = file_path
-            .to_string_lossy()
-            .to_string()
-            .replace("\\", "\\\\")
-            .add("\\\\([^\\\\]+\\\\)*")
-            .add(&pattern);
-
-        Regex::new(&pattern)
-    }
+    Regex::new(&pattern)
 }
 
 fn convert_hgignore_regexp(regexp: &str, file_path: &Path) -> Result<Regex, Error> {
-    #[cfg(not(windows))]
-    {
-        let mut pattern = file_path.to_string_lossy().to_string();
-        if !regexp.starts_with("^") {
-            pattern = pattern.add("/([^/]+/)*");
-        }
+    // the expression is searched for in the path relative to the repository root; `^` anchors it there
+    let pattern = match regexp.strip_prefix('^') {
+        Some(anchored) => root_prefix(file_path).add(anchored),
+        None => root_prefix(file_path).add(".*").add(regexp),
+    };
 
-        if !regexp.starts_with("^") {
-            pattern = pattern.add(".*");
-        }
-
-        pattern = pattern.add(&regexp.trim_start_matches("^"));
-
-        Regex::new(&pattern)
-    }
-
-    #[cfg(windows)]
-    {
-        let mut pattern = file_path.to_string_lossy().to_string();
-        if !regexp.starts_with("^") {
-            pattern = pattern.add("\\\\([^\\\\]+\\\\)*");
-        }
-
-        if !regexp.starts_with("^") {
-            pattern = pattern.add(".*");
-        }
-
-        pattern = pattern.add(&regexp.trim_start_matches("^"));
-
-        Regex::new(&pattern)
-    }
+    Regex::new(&pattern)
 }
